@@ -698,6 +698,8 @@ pub struct Materialised {
     pub o_anchor: orchard::Anchor,
     pub i_notes: Vec<OrchardNoteCtx>,
     pub i_anchor: orchard::Anchor,
+    /// the request does not fix Orchard-family anchors (DeferredPcztBuilder)
+    pub anchors_deferred: bool,
 }
 
 fn sapling_note(w: &World, s: &SSpend) -> sapling::Note {
@@ -862,6 +864,7 @@ pub fn materialise(w: &World, r: &Request, rng: &mut ChaCha20Rng) -> Materialise
         o_anchor,
         i_notes,
         i_anchor,
+        anchors_deferred: false,
     }
 }
 
@@ -1343,6 +1346,39 @@ pub fn gen_request(rng: &mut ChaCha20Rng, o: GenOpts) -> Request {
         }
     }
 
+    // a request without any input can never balance: usually give it one
+    if r.t_in.is_empty() && r.s_spend.is_empty() && r.o_spend.is_empty() && r.i_spend.is_empty() && rng.gen_bool(0.85) {
+        match rng.gen_range(0..4) {
+            0 if has_sapling => {
+                let mut rs = [0u8; 32];
+                rng.fill_bytes(&mut rs);
+                r.s_spend.push(SSpend {
+                    acct: rng.gen_range(0..3),
+                    scope: pick_scope(rng),
+                    div: rng.gen_range(0..N_DIV),
+                    value: pick_value(rng).max(1),
+                    rseed: Some(rs),
+                    rcm_seed: [1u8; 64],
+                    bad_path: false,
+                });
+            }
+            1 if has_ironwood => r.i_spend.push(gen_ospend(rng, true)),
+            2 if has_orchard => r.o_spend.push(gen_ospend(rng, false)),
+            _ => {
+                let mut h = [0u8; 32];
+                rng.fill_bytes(&mut h);
+                r.t_in.push(TIn {
+                    kind: TInKind::P2pkh {
+                        acct: rng.gen_range(0..3),
+                        key: rng.gen_range(0..4),
+                    },
+                    outpoint: (h, rng.gen_range(0..5)),
+                    value: pick_value(rng),
+                });
+            }
+        }
+    }
+
     // hostile twists
     if o.hostile {
         match rng.gen_range(0..40) {
@@ -1426,7 +1462,7 @@ pub fn gen_request(rng: &mut ChaCha20Rng, o: GenOpts) -> Request {
     r.delta = if o.balanced_only {
         0
     } else {
-        match rng.gen_range(0..20) {
+        match rng.gen_range(0..24) {
             0 | 1 => -1,
             2 | 3 => 1,
             4 => -(rng.gen_range(2..100_000i64)),
@@ -1493,24 +1529,58 @@ impl Request {
         }
     }
 
-    /// Adjusts the tunable value so that inputs - outputs - `fee` == `delta`.
-    /// Returns false if that is impossible (the achieved delta is stored in `self.delta`).
+    /// Adjusts values so that inputs - outputs - `fee` == `delta`, preferring the designated
+    /// tunable item. Returns false if that is impossible (the achieved delta is then stored in
+    /// `self.delta`).
     pub fn balance_to(&mut self, fee: u64) -> bool {
         let want = self.delta as i128;
-        let tin = self.total_in() as i128;
-        let tout = self.total_out() as i128;
-        let cur = tin - tout - fee as i128;
-        let Some((v, is_input)) = self.tunable_value() else {
-            self.delta = cur.clamp(i64::MIN as i128, i64::MAX as i128) as i64;
-            return cur == want;
-        };
-        let old = *v as i128;
-        let new = if is_input { old + (want - cur) } else { old - (want - cur) };
-        if new < 0 || new > (MAX_MONEY / 2) as i128 {
+        let cur = self.total_in() as i128 - self.total_out() as i128 - fee as i128;
+        let mut need = want - cur; // > 0: more input (or less output) needed
+        const CAP: i128 = (MAX_MONEY / 2) as i128;
+        // preferred item first, then everything else
+        let mut order = vec![self.tunable];
+        for i in 0..self.t_in.len() {
+            order.push(Tunable::TIn(i));
+        }
+        for i in 0..self.s_spend.len() {
+            order.push(Tunable::SSpend(i));
+        }
+        for i in 0..self.o_spend.len() {
+            order.push(Tunable::OSpend(i));
+        }
+        for i in 0..self.i_spend.len() {
+            order.push(Tunable::ISpend(i));
+        }
+        for i in 0..self.t_out.len() {
+            order.push(Tunable::TOut(i));
+        }
+        for i in 0..self.s_out.len() {
+            order.push(Tunable::SOut(i));
+        }
+        for i in 0..self.o_out.len() {
+            order.push(Tunable::OOut(i));
+        }
+        for i in 0..self.i_out.len() {
+            order.push(Tunable::IOut(i));
+        }
+        for t in order {
+            if need == 0 {
+                break;
+            }
+            self.tunable = t;
+            let Some((v, is_input)) = self.tunable_value() else { continue };
+            let old = *v as i128;
+            let target = if is_input { old + need } else { old - need };
+            let new = target.clamp(0, CAP);
+            *v = new as u64;
+            let applied = if is_input { new - old } else { old - new };
+            need -= applied;
+        }
+        if need != 0 {
+            let cur = self.total_in() as i128 - self.total_out() as i128 - fee as i128;
             self.delta = cur.clamp(i64::MIN as i128, i64::MAX as i128) as i64;
             return false;
         }
-        *v = new as u64;
         true
     }
 }
